@@ -2,7 +2,7 @@
 
 use super::Case;
 use crate::core::{show, shrink_input, Ctx, Prop, Tier, Violation};
-use crate::engine::{self, Config, ErrKind, Rec, Res, RunResult};
+use crate::engine::{self, Config, DocH, ElH, ErrKind, Rec, Res, RunResult};
 use crate::gen::{self, SoupKind};
 use crate::rng::{fnv, mix};
 use serde_json::Value;
@@ -123,12 +123,64 @@ pub fn gen_input(rng: &mut crate::rng::Rng, enc: &'static encoding_rs::Encoding,
     input
 }
 
+/// A document that declares its encoding with `<meta>` (after 0-2 meta tags that declare nothing usable), with text that is
+/// valid in the declared encoding: under `adjust_charset_on_meta_tag` and capturing text handlers the output must be the
+/// input, byte for byte (decoding the text in any other encoding would replace or re-encode bytes).
+pub fn gen_declared(rng: &mut crate::rng::Rng) -> (Config, Vec<u8>) {
+    const LABELS: &[&str] = &["windows-1251", "koi8-r", "shift_jis", "gbk", "iso-8859-2", "euc-kr", "big5", "windows-1252", "euc-jp", "iso-8859-7"];
+    let label = *rng.pick(LABELS);
+    let enc = encoding_rs::Encoding::for_label(label.as_bytes()).unwrap();
+    let chars = gen::mappable_chars(enc);
+    let mut v: Vec<u8> = b"<!doctype html><html><head><title>t</title>".to_vec();
+    for _ in 0..rng.below(3) {
+        v.extend_from_slice(rng.pick(&["<meta name=a content=b>", "<meta charset=no-such-label>", "<meta http-equiv=refresh content=5>", "<meta charset=\"\">", "<meta charset=utf-16le>", "<meta http-equiv=content-type content=\"text/html\">", "<META NAME=viewport CONTENT=x>"]).as_bytes());
+    }
+    match rng.below(3) {
+        0 => v.extend_from_slice(format!("<meta charset={label}>").as_bytes()),
+        1 => v.extend_from_slice(format!("<META CHARSET=\"{}\">", label.to_ascii_uppercase()).as_bytes()),
+        _ => v.extend_from_slice(format!("<meta http-equiv=\"Content-Type\" content=\"text/html; charset={label}\">").as_bytes()),
+    }
+    // a later, different declaration must be ignored
+    if rng.chance(1, 3) {
+        v.extend_from_slice(b"<meta charset=utf-8>");
+    }
+    v.extend_from_slice(b"</head><body><p title=x>");
+    let n = rng.range(1, 40);
+    let text: String = (0..n).map(|_| if rng.chance(1, 3) { *rng.pick(&['a', ' ', 'z', '1']) } else { *rng.pick(&chars) }).filter(|c| *c != '<' && *c != '&').collect();
+    v.extend_from_slice(&enc.encode(&text).0);
+    v.extend_from_slice(b"</p><!-- c --><b>");
+    let text2: String = (0..rng.range(0, 12)).map(|_| *rng.pick(&chars)).filter(|c| *c != '<' && *c != '&').collect();
+    v.extend_from_slice(&enc.encode(&text2).0);
+    v.extend_from_slice(b"</b></body></html>");
+    let mut cfg = Config { adjust_charset: true, send: rng.chance(1, 8), ..Default::default() };
+    cfg.doc.push(DocH { text: true, comments: rng.bool(), doctype: rng.bool(), end: true, ..Default::default() });
+    if rng.bool() {
+        cfg.el.push(ElH { selector: (*rng.pick(&["*", "p", "b", "meta", "body *"])).to_string(), element: rng.bool(), text: true, ..Default::default() });
+    }
+    (cfg, v)
+}
+
+pub fn check_declared(cfg: &Config, input: &[u8], cuts: &[usize]) -> Result<(), (String, String)> {
+    let r = engine::run(cfg, input, cuts).map_err(|e| ("harness".to_string(), e))?;
+    match r.final_res() {
+        Res::Ok => {
+            let out = r.out();
+            if out != input {
+                let i = out.iter().zip(input.iter()).position(|(a, b)| a != b).unwrap_or(out.len().min(input.len()));
+                return Err(("declared-encoding-output-differs".into(), format!("the document declares its encoding with <meta>, its text is valid in that encoding, handlers only observe, yet the output differs from the input at byte {i}\n input:  {}\n output: {}\n cuts: {cuts:?}", show(input), show(&out))));
+            }
+            Ok(())
+        }
+        other => Err(("unexpected-error".into(), format!("{other:?}\n input: {}", show(input)))),
+    }
+}
+
 impl Prop for C01 {
     fn id(&self) -> &'static str {
         "C01"
     }
     fn rule(&self) -> String {
-        "cases = (adversarial soup / raw bytes / mutated input, one of the 36 ASCII-compatible encodings, random observer handler set incl. none, strict flag, write schedule incl. byte-wise, empty writes and (every 40th case) all 1-cuts); a case is non-trivial when the input contains '<' and (at least one handler ran or the schedule cut strictly inside the input); distinct = hash(input, schedule, config)".into()
+        "every 50th case: a document that declares a legacy encoding with <meta> after unusable meta tags, text valid in that encoding, adjust_charset_on_meta_tag and capturing text handlers (output must equal the input); otherwise cases = (adversarial soup / raw bytes / mutated input, one of the 36 ASCII-compatible encodings, random observer handler set incl. none, strict flag, write schedule incl. byte-wise, empty writes and (every 40th case) all 1-cuts); a case is non-trivial when the input contains '<' and (at least one handler ran or the schedule cut strictly inside the input); distinct = hash(input, schedule, config)".into()
     }
     fn assumptions(&self) -> Vec<String> {
         vec![
@@ -141,6 +193,28 @@ impl Prop for C01 {
         for i in 0..n {
             if i % 64 == 0 && ctx.should_stop() {
                 break;
+            }
+            if i % 50 == 7 {
+                let (cfg, input) = gen_declared(&mut ctx.rng);
+                let cuts = gen::random_cuts(&mut ctx.rng, input.len());
+                ctx.eval();
+                match check_declared(&cfg, &input, &cuts) {
+                    Ok(()) => {
+                        ctx.count("declared_encoding_documents");
+                        ctx.nontrivial(mix(fnv(&input), fnv(format!("{cuts:?}").as_bytes())));
+                    }
+                    Err((key, msg)) => {
+                        if key == "harness" {
+                            panic!("harness error: {msg}");
+                        }
+                        let mut v = Case::new(&cfg, &input, &cuts).to_value();
+                        v["declared"] = serde_json::json!(true);
+                        if !ctx.violation(Violation { key, msg, case: v }) {
+                            return;
+                        }
+                    }
+                }
+                continue;
             }
             let enc = if ctx.rng.bool() { encoding_rs::UTF_8 } else { *ctx.rng.pick(&encs) };
             let mut cfg = Config { encoding: enc.name().to_string(), strict: ctx.rng.chance(1, 3), send: ctx.rng.chance(1, 8), esi: ctx.rng.chance(1, 10), ..Default::default() };
@@ -212,6 +286,12 @@ impl Prop for C01 {
     }
     fn replay(&self, case: &Value) -> Result<Vec<Violation>, String> {
         let c: Case = serde_json::from_value(case.clone()).map_err(|e| e.to_string())?;
+        if case.get("declared").is_some() {
+            return Ok(match check_declared(&c.cfg, &c.input(), &c.cuts) {
+                Ok(()) => vec![],
+                Err((key, msg)) => vec![Violation { key, msg, case: case.clone() }],
+            });
+        }
         match check(&c.cfg, &c.input(), &c.cuts) {
             Ok(_) => Ok(vec![]),
             Err((key, msg)) => Ok(vec![Violation { key, msg, case: case.clone() }]),
